@@ -1503,12 +1503,29 @@ class Engine:
                 if op == 'add':
                     return min(a + b, mask(w))
                 return max(a - b, 0)
+            if sg == 's' and not is_sym(a) and not is_sym(b):
+                sa, sb = to_signed(a, w), to_signed(b, w)
+                r = sa + sb if op == 'add' else sa - sb
+                r = max(-(1 << (w - 1)), min(mask(w - 1), r))
+                return r & mask(w)
             x, y = bvv(a, w), bvv(b, w)
             if sg == 'u' and op == 'sub':
                 return z3.If(z3.ULT(x, y), z3.BitVecVal(0, w), x - y)
             if sg == 'u' and op == 'add':
                 return z3.If(z3.ULT(x + y, x), z3.BitVecVal(mask(w), w), x + y)
-            raise Unsupported(n)
+            # signed saturation
+            zero = z3.BitVecVal(0, w)
+            smax = z3.BitVecVal(mask(w - 1), w)
+            smin = z3.BitVecVal(1 << (w - 1), w)
+            if op == 'add':
+                r = x + y
+                pos_ov = z3.And(x >= zero, y >= zero, r < zero)
+                neg_ov = z3.And(x < zero, y < zero, r >= zero)
+            else:
+                r = x - y
+                pos_ov = z3.And(x >= zero, y < zero, r < zero)
+                neg_ov = z3.And(x < zero, y >= zero, r >= zero)
+            return z3.If(pos_ov, smax, z3.If(neg_ov, smin, r))
         m = re.match(r'(ctpop|ctlz|cttz|bswap|bitreverse)\.i(\d+)', n)
         if m:
             op, w = m.group(1), int(m.group(2))
